@@ -45,6 +45,10 @@ impl<'a> OperationVisitor<'a, ValidationErrorContext> for KnownArgumentNames<'a>
         _: &mut ValidationErrorContext,
         directive: &Directive,
     ) {
+        // Arguments of an unknown directive are not checked (and must not be
+        // attributed to the enclosing field).
+        self.current_known_arguments = None;
+
         if let Some(directive_def) = visitor_context.schema.directive_by_name(&directive.name) {
             self.current_known_arguments = Some((
                 ArgumentParent::Directive(&directive_def.name),
@@ -68,6 +72,10 @@ impl<'a> OperationVisitor<'a, ValidationErrorContext> for KnownArgumentNames<'a>
         _: &mut ValidationErrorContext,
         field: &crate::static_graphql::query::Field,
     ) {
+        // Arguments of an unknown field are not checked (and must not be
+        // attributed to the enclosing field).
+        self.current_known_arguments = None;
+
         if let Some(parent_type) = visitor_context.current_parent_type() {
             if let Some(field_def) = parent_type.field_by_name(&field.name) {
                 self.current_known_arguments = Some((
